@@ -133,6 +133,17 @@ func (s *fastSink) drain(expect int) [][]byte {
 	return out
 }
 
+// drainUntil reads until done(datagrams so far) holds or two seconds have passed.
+func (s *fastSink) drainUntil(done func([][]byte) bool) [][]byte {
+	out := s.readAvailable(nil)
+	deadline := time.Now().Add(2 * time.Second)
+	for !done(out) && time.Now().Before(deadline) {
+		time.Sleep(100 * time.Microsecond)
+		out = s.readAvailable(out)
+	}
+	return out
+}
+
 func (s *fastSink) close() { _ = s.conn.Close() }
 
 // m3Message is one decoded emitMetricBatchV2 datagram.
